@@ -204,7 +204,8 @@ def closing_reads(tables=("pub",), atoms=("E1", "E0", "I11")):
         for n in LAZY_NAMES:
             for a in atoms:
                 out.append(["read", T, a, n])
-    out += [["calc", "water", "pub"], ["calc", "magnetic_j0", "pub"], ["calc", "xray_sld_ion", "pub"]]
+    out += [["calc", "water", "pub"], ["calc", "magnetic_j0", "pub"], ["calc", "xray_sld", "pub"],
+            ["calc", "xray_sld_ion", "pub"]]
     return out
 
 
@@ -311,6 +312,17 @@ def c10_violations(h, oc, can):
 def observe(h, can):
     r = run_child(h)["out"]
     return [classify(e, o, can) for e, o in zip(h, r)]
+
+
+def foreign_mark_places(h, table):
+    """where, in the value served by the last event of h, the marks of tables other than `table` sit
+    ("" = the served object itself, "sftable" = the array behind Xray.sftable, ...)"""
+    o = run_child(h)["out"][-1]
+    places = set()
+    for t, ps in (o.get("where") or {}).items():
+        if t != table:
+            places.update(ps)
+    return sorted(places)
 
 
 WORDS = {"OSame": "the canonical value", "ODiff": "a different value (missing-data placeholder or foreign data)",
